@@ -76,6 +76,7 @@ type Family struct {
 	ExtraCfg  func(tier string) string // extra CONSTANTS lines for the MC cfg
 	Assume    []string
 	Unbounded []ApaCheck // Apalache (SMT) checks of the same case analysis over unbounded integers
+	MixedPacks func(tier string) int // C01: number of programs that combine units of DIFFERENT families as sibling properties
 }
 
 // ApaCheck is one `apalache-mc check --length=0 --init=Init --inv=Inv` run with its expected outcome.
